@@ -47,8 +47,8 @@ SINK_YAML = """- lang: python
       target: ["\\\\%arg0"]
 """
 LANG_OF_EXT = {".py": "python", ".js": "javascript"}
-RULE_CLASSES = ("empty-rules", "initialiser-only", "by-method-name", "by-language", "by-unit-name", "by-unit-path", "by-attribute",
-                "overlapping-rules", "repo-default")
+RULE_CLASSES = ("empty-rules", "initialiser-only", "by-method-name", "by-language", "by-unit-name", "by-unit-path",
+                "by-unit-name-and-path", "by-attribute", "shared-chain-entries", "overlapping-rules", "repo-default")
 # decorator names: none is a substring of another, none contains a word lian gives a meaning of its own (static, private, ...)
 DECOS = ("route", "cronjob", "expose", "hook")
 # names the repo's default entry.yaml mentions (unit_name routes.py / controller.py ...), used to make that rule set bite
@@ -61,7 +61,7 @@ DEFAULT_YAML_FILES = {"routes.py": ["file", "queue_join", "predict"], "controlle
 
 def gen_project(seed, tag):
     rng = random.Random(seed)
-    n_files = rng.randint(2, 5)
+    n_files = rng.randint(2, 4)
     dirs = ["", f"api_{tag}", f"core_{tag}", f"web_{tag}/v1_{tag}"]
     stems = [f"routes_{tag}", f"subroutes_{tag}", f"app_{tag}", f"views_{tag}", f"jobs_{tag}", f"util_{tag}"]
     shared = [f"handle_{tag}", f"process_{tag}", f"main_{tag}", f"on_event_{tag}"]      # names that recur across files
@@ -74,22 +74,72 @@ def gen_project(seed, tag):
         uid[0] += 1
         return f"{p}{uid[0]}_{tag}"
 
-    for i in range(n_files):
-        lang = "python" if i == 0 else ("javascript" if i == 1 and rng.random() < 0.8 else rng.choice(["python", "python", "javascript"]))
-        ext = ".py" if lang == "python" else ".js"
-        while True:
-            if lang == "python" and rng.random() < 0.12:
-                rel = os.path.join(rng.choice(dirs), rng.choice(sorted(DEFAULT_YAML_FILES)))
-            else:
-                rel = os.path.join(rng.choice(dirs), rng.choice(stems) + ext)
-            rel = rel.lstrip("/")
-            if rel not in used and os.path.basename(rel) not in {os.path.basename(u) for u in used if u.endswith(ext)}:
-                used.add(rel)
-                break
+    # file layout: same base names in different directories are a regular feature (twins of handlers_<tag>, several __init__.py)
+    layout = []
+    nonroot = dirs[1:]
+    if rng.random() < 0.7:
+        ext = ".py" if rng.random() < 0.75 else ".js"
+        for d in rng.sample(dirs, rng.choice([2, 2, 3])):
+            layout.append(os.path.join(d, f"handlers_{tag}{ext}").lstrip("/"))
+    if rng.random() < 0.5:
+        for d in rng.sample(nonroot, rng.choice([1, 2, 2])):
+            layout.append(os.path.join(d, "__init__.py"))
+    while len(layout) < n_files:
+        ext = rng.choice([".py", ".py", ".js"])
+        if ext == ".py" and rng.random() < 0.12:
+            rel = os.path.join(rng.choice(dirs), rng.choice(sorted(DEFAULT_YAML_FILES)))
+        else:
+            rel = os.path.join(rng.choice(dirs), rng.choice(stems) + ext)
+        rel = rel.lstrip("/")
+        if rel not in layout:
+            layout.append(rel)
+    if not any(r.endswith(".py") for r in layout):
+        layout.append(f"app_{tag}.py")
+    if not any(r.endswith(".js") for r in layout) and rng.random() < 0.8:
+        layout.append(os.path.join(rng.choice(dirs), f"client_{tag}.js").lstrip("/"))
+    rng.shuffle(layout)
+    for rel in layout:
+        lang = "python" if rel.endswith(".py") else "javascript"
+        used.add(rel)
         langs_present.add(lang)
         out = []
         mlist = []          # indices into methods of this file's callable-by-name top-level functions
-        n_funcs = rng.randint(2, 4)
+        # a shared call chain helper -> (helper2 ->) leaf with the only sink in the leaf; several functions of the file hand their
+        # own parameter down the chain, so each of them has a flow  <its parameter> -> <the leaf's sink>
+        chain_head = None
+        if rng.random() < 0.6:
+            depth = rng.choice([2, 3, 3])
+            prev = None
+            for lv in range(depth):            # declared innermost first
+                role = "chain-leaf" if lv == 0 else "chain-helper"
+                nm = fresh("leaf" if lv == 0 else "helper")
+                pname = f"cv{lv}"
+                idx = len(methods)
+                if lang == "python":
+                    out.append(f"def {nm}({pname}):")
+                    line = len(out)
+                    if lv == 0:
+                        out.append(f"    tsnk({pname})")
+                    else:
+                        out.append(f"    r = {methods[prev]['name']}({pname})")
+                    body_line = len(out)
+                    out.append("    return 0")
+                else:
+                    out.append(f"function {nm}({pname}) {{")
+                    line = len(out)
+                    if lv == 0:
+                        out.append(f"    tsnk({pname});")
+                    else:
+                        out.append(f"    var r = {methods[prev]['name']}({pname});")
+                    body_line = len(out)
+                    out.append("    return 0;")
+                    out.append("}")
+                methods.append({"file": rel, "lang": lang, "name": nm, "line": line, "sink_line": body_line if lv == 0 else None,
+                                "param_line": None, "attrs": [], "cls": None, "calls": [], "tcalls": [prev] if prev is not None else [],
+                                "role": role})
+                prev = idx
+            chain_head = prev
+        n_funcs = rng.randint(3, 4) if chain_head is not None else rng.randint(2, 4)
         names = []
         base = os.path.basename(rel)
         for j in range(n_funcs):
@@ -118,6 +168,7 @@ def gen_project(seed, tag):
                 for a in attrs:
                     out.append(f"@{a}_{tag}")
             callee = rng.choice(mlist) if mlist and rng.random() < 0.4 else None
+            tcall = chain_head if chain_head is not None and rng.random() < 0.85 else None
             idx = len(methods)
             nested = None
             if lang == "python":
@@ -127,6 +178,8 @@ def gen_project(seed, tag):
                 sink = len(out)
                 if callee is not None:
                     out.append(f"    r = {methods[callee]['name']}({rng.randint(1, 9)})")
+                if tcall is not None:
+                    out.append(f"    r2 = {methods[tcall]['name']}(tsrc)")
                 if rng.random() < 0.15:
                     # a nested function, never called: a method declaration like any other for name-based rules
                     free = [s_ for s_ in shared if s_ not in names]      # never the name of a function of this file
@@ -144,11 +197,13 @@ def gen_project(seed, tag):
                 sink = len(out)
                 if callee is not None:
                     out.append(f"    var r = {methods[callee]['name']}({rng.randint(1, 9)});")
+                if tcall is not None:
+                    out.append(f"    var r2 = {methods[tcall]['name']}(tsrc);")
                 out.append(f"    return {j + 1};")
                 out.append("}")
             methods.append({"file": rel, "lang": lang, "name": nm, "line": line, "sink_line": sink, "param_line": line,
                             "attrs": [f"{a}_{tag}" for a in attrs], "cls": None, "calls": [callee] if callee is not None else [],
-                            "role": "function"})
+                            "tcalls": [tcall] if tcall is not None else [], "role": "function"})
             mlist.append(idx)
             if nested is not None:
                 methods.append(nested)
@@ -255,6 +310,33 @@ def gen_rule_sets(project, seed, classes):
             rs["rules"] = [{"unit_path": unit_path_of(rng.choice(files)), "method_list": some_names(3) + ["%unit_init"]}]
             if rng.random() < 0.3:
                 rs["rules"][0].pop("method_list")
+        elif cls == "by-unit-name-and-path":
+            # both restrictions in one rule; files with the same base name in different directories tell them apart
+            bases = {}
+            for f in files:
+                bases.setdefault(os.path.basename(f), []).append(f)
+            twins = sorted(b for b, fs in bases.items() if len(fs) > 1)
+            b = rng.choice(twins) if twins and rng.random() < 0.85 else os.path.basename(rng.choice(files))
+            f = rng.choice(bases[b])
+            r = rng.random()
+            if r < 0.5 and "/" in f:
+                up = os.path.dirname(f) + "/"                     # the directory of one of the twins
+            elif r < 0.8:
+                up = f if "/" in f else f"src_{tag}/" + f           # the relative path of one of them
+            else:
+                other = [d for d in {os.path.dirname(x) for x in files} if d and d != os.path.dirname(f)]
+                up = (rng.choice(sorted(other)) + "/") if other else f"nowhere_{tag}/"      # a directory the file is not in
+            here = sorted({m["name"] for m in ms if os.path.basename(m["file"]) == b})
+            ml = rng.sample(here, min(len(here), rng.randint(1, 3))) + ["%unit_init"]
+            rs["rules"] = [{"unit_name": b if rng.random() < 0.8 else b.split(".")[0], "unit_path": up, "method_list": ml}]
+            if rng.random() < 0.25:
+                rs["rules"][0].pop("method_list")
+        elif cls == "shared-chain-entries":
+            # every function that hands its parameter down a shared helper -> leaf chain, named explicitly
+            heads = sorted({m["name"] for m in ms if m.get("tcalls") and m["role"] == "function"})
+            rs["rules"] = [{"method_list": heads or some_names(2)}]
+            if rng.random() < 0.3:
+                rs["rules"][0]["method_list"] = rs["rules"][0]["method_list"] + ["%unit_init"]
         elif cls == "by-attribute":
             have = sorted({a for m in ms for a in m["attrs"]})
             want = rng.sample(have, min(len(have), rng.randint(1, 2))) if have else [f"{DECOS[0]}_{tag}"]
@@ -394,7 +476,8 @@ def analyse(job):
     res = {"cls": cls, "tag": tag, "fails": [], "harness": [], "selected": 0, "started": len(rec["entries"]), "flows_expected": 0,
            "flows_observed": 0, "uncalled_selected": 0, "extern_selected": 0, "unit_init_selected": 0, "console_checked": 0,
            "wrapper_calls": rec["wrapper_calls"], "recorder_errors": rec["errors"][:3], "n_rules": len(rules),
-           "langs": project["langs"], "selected_by_role": {}}
+           "langs": project["langs"], "selected_by_role": {}, "chain_flows_expected": 0, "entries_sharing_a_chain": 0,
+           "same_base_name_files": len(project["files"]) - len({os.path.basename(f) for f in project["files"]})}
     gi = callgraph.GirIndex(wsd)
     # ---- units as this check knows them ---------------------------------------------------------------------------------
     units = []
@@ -512,6 +595,7 @@ def analyse(job):
     called_somewhere = set()
     for m in project["methods"]:
         called_somewhere.update(m["calls"])
+        called_somewhere.update(m.get("tcalls", []))
     for ui in project["unit_init"].values():
         called_somewhere.update(ui["calls"])
     for gid, d in sorted(expected.items()):
@@ -542,7 +626,7 @@ def analyse(job):
             if i in out:
                 continue
             out.add(i)
-            work += project["methods"][i]["calls"]
+            work += project["methods"][i]["calls"] + project["methods"][i].get("tcalls", [])
         return out
     gid_method = {g: i for i, g in method_gid.items() if g is not None}
     gid_unit_init = {}
@@ -558,12 +642,32 @@ def analyse(job):
     dyn_err = validate_reach_python(project, root, expected, reach)
     if dyn_err:
         res["harness"].append(dyn_err)
+    def flows_of(i):
+        """flows whose source is the parameter tsrc of method i: into its own sink, and into the sink of every leaf its parameter
+        is handed down to (helper -> .. -> leaf)"""
+        m = project["methods"][i]
+        out = {}
+        if m["param_line"] is None:
+            return out
+        if m["sink_line"] is not None:
+            out[(m["file"], m["param_line"], m["sink_line"])] = ("own", i)
+        work, seen = list(m.get("tcalls", [])), set()
+        while work:
+            j = work.pop()
+            if j in seen:
+                continue
+            seen.add(j)
+            mj = project["methods"][j]
+            if mj["sink_line"] is not None:
+                out[(m["file"], m["param_line"], mj["sink_line"])] = ("chain", i)
+            work += mj.get("tcalls", [])
+        return out
     exp_flows = {}
     for i in reach_started:
-        m = project["methods"][i]
-        if m["sink_line"] is not None:
-            exp_flows[(m["file"], m["param_line"], m["sink_line"])] = i
-    all_flows = {(m["file"], m["param_line"], m["sink_line"]): i for i, m in enumerate(project["methods"]) if m["sink_line"] is not None}
+        exp_flows.update(flows_of(i))
+    all_flows = {}
+    for i in range(len(project["methods"])):
+        all_flows.update(flows_of(i))
     obs = set()
     tf = os.path.join(wsd, "taint", "taint_data_flow.json")
     if os.path.exists(tf):
@@ -578,15 +682,55 @@ def analyse(job):
             obs.add(key)
     res["flows_expected"], res["flows_observed"] = len(exp_flows), len(obs)
     entry_idx = {gid_method[g] for g in started if g in gid_method}
+    started_order = [g for g in started if g in gid_method]
+    n_chain = sum(1 for v_ in exp_flows.values() if v_[0] == "chain")
+    res["chain_flows_expected"] = n_chain
+    res["entries_sharing_a_chain"] = sum(1 for g in set(started) if g in gid_method and project["methods"][gid_method[g]].get("tcalls"))
     for k in sorted(set(exp_flows) - obs):
-        i = exp_flows[k]
+        how, i = exp_flows[k]
         m = project["methods"][i]
         where = "selected-entry" if i in entry_idx else "callee-of-selected-entry"
-        res["fails"].append((f"{cls}:flow-missing-in-{where}[{m['lang']}:{m['role']}]",
-                             f"{m['file']}: parameter tsrc of {m['name']} (line {k[1]}) -> tsnk (line {k[2]}) is reachable from an entry P3 started from "
-                             f"but taint_data_flow.json has no such flow (it has {len(obs)})", case))
+        if how == "chain":
+            nth = started_order.index(method_gid[i]) + 1 if method_gid.get(i) in started_order else 0
+            # within ONE entry's analysis the chain's inner call sites are entered once per function that hands its parameter down;
+            # if under every started entry that reaches this function three or more such functions are reachable, the per-call-site
+            # analysis budget of that entry is a (known) explanation - otherwise it is not
+            leaf_sinks = {kk[2] for kk in flows_of(i) if kk != (m["file"], m["param_line"], m["sink_line"])}
+            def hands_down(j):
+                return any(kk[2] in leaf_sinks and vv[0] == "chain" for kk, vv in flows_of(j).items())
+
+            def visits(j, depth=0):
+                """number of call paths below (and including) method j on which the chain is entered"""
+                if depth > 30:
+                    return 0
+                return (1 if hands_down(j) else 0) + sum(visits(c, depth + 1) for c in project["methods"][j]["calls"])
+            per_entry = []
+            for g in set(started):
+                if i in closure([g]):
+                    if g in gid_method:
+                        per_entry.append(visits(gid_method[g]))
+                    else:
+                        per_entry.append(sum(visits(c) for c in project["unit_init"][gid_unit_init[g]]["calls"]))
+            # length of the chain below the function (helper -> helper -> leaf = 3): the budget of a call site is kept per calling
+            # call site, so only from the third chain level on do different callers share it
+            def chain_len(j, d=0):
+                mj = project["methods"][j]
+                return max([d + 1] + [chain_len(c, d + 1) for c in mj.get("tcalls", [])]) if d < 10 else d
+            deep = max([chain_len(c) for c in m.get("tcalls", [])] or [0]) >= 3
+            crowded = deep and bool(per_entry) and min(per_entry) >= 3
+            tag = "{chain-of-3-or-more-levels-entered-on-3-or-more-call-paths-within-each-reaching-entry}" if crowded else ""
+            res["fails"].append((f"flow-from-entry-parameter-through-shared-call-chain-missing{tag}[{m['lang']}]" if crowded else
+                                 f"{cls}:flow-from-entry-parameter-through-shared-call-chain-missing[{m['lang']}]",
+                                 f"{m['file']}: parameter tsrc of {m['name']} (line {k[1]}) is handed down helper -> leaf to tsnk (line {k[2]}); "
+                                 f"{m['name']} is reachable from an entry P3 started from (it is start no. {nth} of {len(started)}; "
+                                 f"{res['entries_sharing_a_chain']} starts share such a chain) but taint_data_flow.json has no such flow", case))
+        else:
+            res["fails"].append((f"{cls}:flow-missing-in-{where}[{m['lang']}:{m['role']}]",
+                                 f"{m['file']}: parameter tsrc of {m['name']} (line {k[1]}) -> tsnk (line {k[2]}) is reachable from an entry P3 started from "
+                                 f"but taint_data_flow.json has no such flow (it has {len(obs)})", case))
     for k in sorted(obs - set(exp_flows)):
-        i = all_flows.get(k)
+        hit = all_flows.get(k)
+        i = hit[1] if hit else None
         what = "code-reachable-from-no-entry" if i is not None else "no-embedded-flow"
         m = project["methods"][i] if i is not None else {"lang": "?", "role": "?", "name": "?"}
         res["fails"].append((f"{cls}:flow-reported-in-{what}[{m['lang']}:{m['role']}]",
@@ -604,26 +748,41 @@ def validate_reach_python(project, root, expected, reach):
     pyfiles = {os.path.join(root, rel): rel for rel in project["files"] if rel.endswith(".py")}
     by_line = {(m["file"], m["line"] - len(m["attrs"])): i for i, m in enumerate(project["methods"])}
     entered = set()
-    on = [False]
+    phase = ["import"]
+    sel_ui = {d["file"] for d in expected.values() if d["role"] == "unit-init" and d["lang"] == "python"}
 
     def prof(frame, event, arg):
-        if event == "call" and on[0]:
-            rel = pyfiles.get(frame.f_code.co_filename)
-            if rel is not None and frame.f_code.co_name != "<module>":
-                i = by_line.get((rel, frame.f_code.co_firstlineno))
-                if i is not None and project["methods"][i]["name"] == frame.f_code.co_name:
-                    entered.add(i)
+        if event != "call":
+            return
+        rel = pyfiles.get(frame.f_code.co_filename)
+        if rel is None or frame.f_code.co_name == "<module>":
+            return
+        i = by_line.get((rel, frame.f_code.co_firstlineno))
+        if i is None or project["methods"][i]["name"] != frame.f_code.co_name:
+            return
+        if phase[0] == "import":
+            # top-level code counts only when it belongs to a selected unit initialiser: find the module frame this call is under
+            fr = frame.f_back
+            while fr is not None and not (fr.f_code.co_name == "<module>" and fr.f_code.co_filename in pyfiles):
+                fr = fr.f_back
+            if fr is None or pyfiles[fr.f_code.co_filename] not in sel_ui:
+                return
+        entered.add(i)
     sys.path.insert(0, root)
-    sel_ui = {d["file"] for d in expected.values() if d["role"] == "unit-init" and d["lang"] == "python"}
     sel_idx = [d["idx"] for d in expected.values() if d["idx"] is not None and d["lang"] == "python" and d["role"] != "nested-function"]
     err = None
+
+    def modname(rel):
+        parts = rel[:-3].split("/")
+        if parts[-1] == "__init__":
+            parts = parts[:-1]
+        return ".".join(parts)
     sys.setprofile(prof)
     try:
         mods = {}
         for rel in sorted(pyfiles.values()):
-            on[0] = rel in sel_ui
-            mods[rel] = importlib.import_module(rel[:-3].replace("/", "."))
-        on[0] = True
+            mods[rel] = importlib.import_module(modname(rel))
+        phase[0] = "entries"
         for i in sel_idx:
             m = project["methods"][i]
             mod = mods[m["file"]]
@@ -674,7 +833,7 @@ def main():
         jobs.append({"project": case["project"], "ruleset": case["ruleset"], "k": 0})
     else:
         rng = random.Random(chk.seed)
-        n_proj = 40 if not thorough else 500
+        n_proj = 44 if not thorough else 500
         per = 6 if not thorough else 8
         base = rng.randrange(1 << 30)
         for i in range(n_proj):
@@ -704,6 +863,11 @@ def main():
         chk.count("selected extern-mock methods", v["extern_selected"])
         chk.count("selected unit initialisers", v["unit_init_selected"])
         chk.count("embedded flows expected (reachable from a selected entry)", v["flows_expected"])
+        chk.count("flows expected from an entry parameter through a shared helper -> leaf chain", v["chain_flows_expected"])
+        if v["entries_sharing_a_chain"] >= 3:
+            chk.count("runs with >= 3 started methods that hand their parameter down a shared call chain", 1)
+        if v["same_base_name_files"] > 0:
+            chk.count("runs over a project with same-base-name files in different directories", 1)
         chk.count("flows read from taint_data_flow.json", v["flows_observed"])
         chk.count("console `Analyzing` lines parsed", v["console_checked"])
         chk.count("P3 wrapper invocations", v["wrapper_calls"])
@@ -738,6 +902,9 @@ def main():
         chk.require("embedded flows expected (reachable from a selected entry)", 150 * k)
         chk.require("flows read from taint_data_flow.json", 100 * k)
         chk.require("runs in which the rules select nothing", 10)
+        chk.require("flows expected from an entry parameter through a shared helper -> leaf chain", 100 * k)
+        chk.require("runs with >= 3 started methods that hand their parameter down a shared call chain", 25 * k)
+        chk.require("runs over a project with same-base-name files in different directories", 60 * k)
         chk.require("runs over a mixed Python+JavaScript project", 100 * k)
         chk.require("console `Analyzing` lines parsed", 150 * k)
         for c in RULE_CLASSES:
